@@ -265,40 +265,9 @@ def r11_3(prog, tab, rid="R11.3", where="libasn1fix/", fatal=None, floor=60, exc
     return r
 
 
-def r11_4(prog, tab):
-    """Module-wide pass barriers.  For each (before, after) pair of the table inside the named driver function: every
-    call site that runs `after` (directly, or as the callback handed to asn1f_recurse_expr) is dominated by the header
-    of a loop that contains a `before` site and does not contain the `after` site: the earlier pass has been applied to
-    every member of the module before the later pass looks at the first one."""
-    r = Rule("R11.4", "tag-distinctness checking starts only after tagging passes have run over the whole module", floor=3)
-    for row in tab.get("pass_barriers", []):
-        f = prog.func(row["function"])
-        if f is None:
-            raise AnalysisBroken("%s not found" % row["function"])
-
-        def sites(name):
-            out = []
-            for b, i, e in f.calls():
-                if e.get("callee") == name or any(n[0] == "fn" and n[1] == name for a in e.get("args", []) for n in walk(a.get("tree"))):
-                    out.append((b, i, e))
-            return out
-        bs, as_ = sites(row["before"]), sites(row["after"])
-        if not bs or not as_:
-            raise AnalysisBroken("%s: pass %s or %s not found" % (row["function"], row["before"], row["after"]))
-        loops = f.loops()
-        dom = f.dominators()
-        for ab, ai, ae in as_:
-            key = "%s<%s" % (row["before"], row["after"])
-            good = False
-            for bb, bi, be in bs:
-                for h, body in loops:
-                    if bb.id in body and ab.id not in body and h in dom.get(ab.id, ()):
-                        good = True
-            if good:
-                r.ok(f, key, "the loop applying %s to every member is complete before %s runs" % (row["before"], row["after"]), ae["line"])
-            else:
-                r.bad(f, key, "%s can run for one member before %s has been applied to all members (same loop, or no dominating "
-                              "loop): %s" % (row["after"], row["before"], row["reason"]), ae["line"])
+def module_barriers_rule(prog, rows, r):
+    """Barriers across modules: in the driver, the call that (transitively) runs `after` sits behind a completed loop over
+    all modules that (transitively) runs `before`."""
     # barriers across modules: in the driver, the call that (transitively) runs `after` sits behind a completed loop over all
     # modules that (transitively) runs `before`, and does not itself run `before` for its own module only
     cg = prog.callgraph()
@@ -336,7 +305,7 @@ def r11_4(prog, tab):
             for b_, i_, x in g.calls():
                 st.extend(targets_of(x, g))
         return False
-    for row in tab.get("module_barriers", []):
+    for row in rows:
         f = prog.func(row["function"])
         if f is None:
             raise AnalysisBroken("%s not found" % row["function"])
@@ -359,6 +328,43 @@ def r11_4(prog, tab):
             else:
                 r.bad(f, key, "%s runs for one module (through %s) before %s has run for all modules: %s" % (
                     row["after"], ae.get("callee") or "an indirect call", row["before"], row["reason"]), ae["line"])
+
+
+def r11_4(prog, tab):
+    """Module-wide pass barriers.  For each (before, after) pair of the table inside the named driver function: every
+    call site that runs `after` (directly, or as the callback handed to asn1f_recurse_expr) is dominated by the header
+    of a loop that contains a `before` site and does not contain the `after` site: the earlier pass has been applied to
+    every member of the module before the later pass looks at the first one."""
+    r = Rule("R11.4", "tag-distinctness checking starts only after tagging passes have run over the whole module", floor=3)
+    for row in tab.get("pass_barriers", []):
+        f = prog.func(row["function"])
+        if f is None:
+            raise AnalysisBroken("%s not found" % row["function"])
+
+        def sites(name):
+            out = []
+            for b, i, e in f.calls():
+                if e.get("callee") == name or any(n[0] == "fn" and n[1] == name for a in e.get("args", []) for n in walk(a.get("tree"))):
+                    out.append((b, i, e))
+            return out
+        bs, as_ = sites(row["before"]), sites(row["after"])
+        if not bs or not as_:
+            raise AnalysisBroken("%s: pass %s or %s not found" % (row["function"], row["before"], row["after"]))
+        loops = f.loops()
+        dom = f.dominators()
+        for ab, ai, ae in as_:
+            key = "%s<%s" % (row["before"], row["after"])
+            good = False
+            for bb, bi, be in bs:
+                for h, body in loops:
+                    if bb.id in body and ab.id not in body and h in dom.get(ab.id, ()):
+                        good = True
+            if good:
+                r.ok(f, key, "the loop applying %s to every member is complete before %s runs" % (row["before"], row["after"]), ae["line"])
+            else:
+                r.bad(f, key, "%s can run for one member before %s has been applied to all members (same loop, or no dominating "
+                              "loop): %s" % (row["after"], row["before"], row["reason"]), ae["line"])
+    module_barriers_rule(prog, tab.get("module_barriers", []), r)
     # in-function sequences: after `first` ran, `then` runs on every path to a return
     from .c15 import must_pass
     for row in tab.get("pass_sequences", []):
